@@ -1,8 +1,10 @@
 """C06 - each request completes exactly once, with the response bearing its own id (engine BC + bootstrap protocol)."""
 from vlib.engines import bc
+from vlib import tracefuzz
 from vlib.engines.base import drive, run_trace
 
 PROP = "C06"
+FUZZ_ENGINE = bc.BCEngine  # fuzz/traces.py (coverage-guided trace search, thorough tier)
 TECHNIQUE = "model-based stateful property testing (Hypothesis-driven operation sequences against a reference model of the request table), scheduler-owned byte-stream chunking and reply ordering; ddmin-shrunk traces"
 RULE = (
     "traces over one real _KafkaBrokerClient and a scripted peer: makeRequest (fresh id / id of an in-flight request / id reused "
@@ -22,6 +24,8 @@ ASSUMPTIONS = [
 def shard(ctx):
     drive(ctx, bc.BCEngine, ctx.n(16 * 500, 16 * 10000), min_steps=6, max_steps=60, props={"C06"})
     drive(ctx, bc.BPEngine, ctx.n(16 * 40, 16 * 2000), min_steps=4, max_steps=30, offset=1, props={"C06"})
+    # coverage-guided trace search (atheris driving the same Hypothesis driver): 2 campaigns in the quick tier, 4 in the thorough one
+    tracefuzz.run(ctx, "c06", 400 if ctx.tier == "quick" else 40000, nshards=2 if ctx.tier == "quick" else 4)
 
 
 def replay(case, ctx):
